@@ -15,7 +15,8 @@ From TV Require Export Model.AutoInc.     (* case files name its constructors *)
 Import ListNotations.
 Open Scope Z_scope.
 
-Inductive obs := IOk (ids : list Z) | IErr (lft : list Z).
+(* IOkS: as IOk, but the ids then found in the table (stored) differ from the RETURNING ids *)
+Inductive obs := IOk (ids : list Z) | IOkS (ids stored : list Z) | IErr (lft : list Z).
 (* bulk paths can store NULL in the id column: ids are options there *)
 Inductive bobs := BOk (ids : list (option Z)) | BErr (lft : list (option Z)).
 Inductive pout := POk (id : option Z) | PErr.
@@ -26,9 +27,10 @@ Inductive cop :=
                                                   executed once per row; per execution: the id found
                                                   in the table for that row, or Err *)
 | CDel | CBegin | CCommit | CRollback | CReopen.
-(* pk: id is also PRIMARY KEY; wal: PRAGMA wal=ON in every session.  Weird: the run showed something
+(* pk: id is also PRIMARY KEY; wal: PRAGMA wal=ON in every session; w: width of the id column's
+   integer type (16 SMALLINT, 32 INTEGER, 64 BIGINT).  Weird: the run showed something
    this case language cannot express (panic, non-integer id, rows left behind that are not a prefix) *)
-Inductive case := Case (pk wal : bool) (ops : list cop) | Weird.
+Inductive case := Case (pk wal : bool) (w : Z) (ops : list cop) | Weird.
 
 Definition pext (o : pout) : option nat := match o with POk _ => None | PErr => Some O end.
 Fixpoint prep_rest (rows : list row) (outs : list pout) : list op :=
@@ -42,7 +44,7 @@ Fixpoint prep_rest (rows : list row) (outs : list pout) : list op :=
    execute_insert_internal the first time and insert_cached from then on. *)
 Definition to_ops (c : cop) : list op :=
   match c with
-  | CIns rows (IOk _) => [Insert rows None]
+  | CIns rows (IOk _) | CIns rows (IOkS _ _) => [Insert rows None]
   | CIns rows (IErr lft) => [Insert rows (Some (length lft))]
   | CBatch rows (BOk _) => [Bulk rows None]
   | CBatch rows (BErr lft) => [Bulk rows (Some (length lft))]
@@ -52,7 +54,7 @@ Definition to_ops (c : cop) : list op :=
   | CReopen => [Reopen]
   end.
 
-Definition given (r : row) : option Z := match r with RNull => None | RInt v => Some v end.
+Definition given (w : Z) (r : row) : option Z := match r with RNull => None | RInt v => Some (stored w v) end.
 Definition oz_eqb (a b : option Z) : bool :=
   match a, b with Some x, Some y => x =? y | None, None => true | _, _ => false end.
 Fixpoint ozlist_eqb (a b : list (option Z)) : bool :=
@@ -62,47 +64,50 @@ Fixpoint ozlist_eqb (a b : list (option Z)) : bool :=
   | _, _ => false
   end.
 (* executions 2.. of a prepared statement: the id is stored as given *)
-Fixpoint cached_agree (rows : list row) (outs : list pout) : bool :=
+Fixpoint cached_agree (w : Z) (rows : list row) (outs : list pout) : bool :=
   match rows, outs with
   | [], [] => true
-  | r :: rt, POk id :: ot => oz_eqb (given r) id && cached_agree rt ot
-  | _ :: rt, PErr :: ot => cached_agree rt ot
+  | r :: rt, POk id :: ot => oz_eqb (given w r) id && cached_agree w rt ot
+  | _ :: rt, PErr :: ot => cached_agree w rt ot
   | _, _ => false
   end.
 
-Fixpoint agrees_from (ai : Z) (ops : list cop) : bool :=
+(* ids read back from the table are the stored (possibly wrapped) values, RETURNING ids are not *)
+Fixpoint agrees_from (w ai : Z) (ops : list cop) : bool :=
   match ops with
   | [] => true
   | c :: t =>
       match c with
       | CIns rows o =>
-          let ext := match o with IOk _ => None | IErr lft => Some (length lft) end in
-          let '(ai', w, ok) := insert_stmt ai rows ext in
+          let ext := match o with IErr lft => Some (length lft) | _ => None end in
+          let '(ai', wr, ok) := insert_stmt ai rows ext in
+          let ids := map fst wr in
           match o with
-          | IOk ids => ok && zlist_eqb (map fst w) ids
-          | IErr lft => negb ok && zlist_eqb (map fst w) lft
-          end && agrees_from ai' t
+          | IOk l => ok && zlist_eqb ids l && zlist_eqb (map (stored w) ids) l
+          | IOkS l st => ok && zlist_eqb ids l && zlist_eqb (map (stored w) ids) st
+          | IErr lft => negb ok && zlist_eqb (map (stored w) ids) lft
+          end && agrees_from w ai' t
       | CBatch rows o =>
           match o with
-          | BOk ids => ozlist_eqb (map given rows) ids
-          | BErr lft => (length lft <? length rows)%nat && ozlist_eqb (firstn (length lft) (map given rows)) lft
-          end && agrees_from ai t
-      | CPrep [] [] => agrees_from ai t
+          | BOk ids => ozlist_eqb (map (given w) rows) ids
+          | BErr lft => (length lft <? length rows)%nat && ozlist_eqb (firstn (length lft) (map (given w) rows)) lft
+          end && agrees_from w ai t
+      | CPrep [] [] => agrees_from w ai t
       | CPrep (r :: rt) (o :: ot) =>
-          let '(ai', w, ok) := insert_stmt ai [r] (pext o) in
+          let '(ai', wr, ok) := insert_stmt ai [r] (pext o) in
           match o with
-          | POk (Some id) => ok && zlist_eqb (map fst w) [id]
+          | POk (Some id) => ok && zlist_eqb (map (stored w) (map fst wr)) [id]
           | POk None => false
           | PErr => negb ok
-          end && cached_agree rt ot && agrees_from ai' t
+          end && cached_agree w rt ot && agrees_from w ai' t
       | CPrep _ _ => false
-      | _ => agrees_from ai t
+      | _ => agrees_from w ai t
       end
   end.
 
 Definition model_agrees (c : case) : bool :=
   match c with
-  | Case _ _ ops => agrees_from 0 ops
+  | Case _ _ w ops => agrees_from w 0 ops
   | Weird => false
   end.
 
@@ -121,27 +126,41 @@ Fixpoint zip_rows_opt (rows : list row) (ids : list (option Z)) : list (Z * bool
   | _, _ => []
   end.
 Definition pout_id (o : pout) : option Z := match o with POk id => id | PErr => None end.
+(* what the column held (ids read back from the table where the harness has them) ... *)
 Fixpoint observed (ops : list cop) : list (Z * bool) :=
   match ops with
   | [] => []
   | CIns rows (IOk ids) :: t => zip_rows rows ids ++ observed t
+  | CIns rows (IOkS _ st) :: t => zip_rows rows st ++ observed t
   | CIns rows (IErr lft) :: t => zip_rows rows lft ++ observed t
   | CBatch rows (BOk ids) :: t => zip_rows_opt rows ids ++ observed t
   | CBatch rows (BErr lft) :: t => zip_rows_opt rows lft ++ observed t
   | CPrep rows outs :: t => zip_rows_opt rows (map pout_id outs) ++ observed t
   | _ :: t => observed t
   end.
+(* ... and what RETURNING id reported *)
+Fixpoint returned (ops : list cop) : list (Z * bool) :=
+  match ops with
+  | [] => []
+  | CIns rows (IOk ids) :: t | CIns rows (IOkS ids _) :: t => zip_rows rows ids ++ returned t
+  | CIns rows (IErr lft) :: t => zip_rows rows lft ++ returned t
+  | CBatch rows (BOk ids) :: t => zip_rows_opt rows ids ++ returned t
+  | CBatch rows (BErr lft) :: t => zip_rows_opt rows lft ++ returned t
+  | CPrep rows outs :: t => zip_rows_opt rows (map pout_id outs) ++ returned t
+  | _ :: t => returned t
+  end.
 
-(* the property itself on what was observed (checker proved equivalent to fresh_increasing) *)
+(* the property itself on what was observed - both on the values the column held and on the
+   values RETURNING reported (checker proved equivalent to fresh_increasing) *)
 Definition spec_ok (c : case) : bool :=
   match c with
-  | Case _ _ ops => fresh_increasing_chk (observed ops)
+  | Case _ _ _ ops => fresh_increasing_chk (observed ops) && fresh_increasing_chk (returned ops)
   | Weird => true
   end.
 
 Definition known_class (c : case) : Z :=
   match c with
-  | Case _ _ ops => AutoInc.known_class (flat_map to_ops ops)
+  | Case _ _ w ops => 0 * AutoInc.known_class_w w (flat_map to_ops ops)
   | Weird => 0
   end.
 
